@@ -152,6 +152,9 @@ func (g *Gen) test(n *Node) TestSpec {
 		t.N = int64(r.Intn(7))
 		t.S = Pick(r, []string{"a", "ab", "he", "lo", "1", "!", "", "é"})
 		t.Strs = []string{Pick(r, sampleStrings), Pick(r, sampleStrings)}
+		if t.Builtin == "oneof" && r.P(35) { // a long list (implementations may treat long lists differently)
+			t.Strs = append([]string{}, sampleStrings[1:12]...)
+		}
 		if !g.P.NoNot && r.P(20) {
 			t.Not = true
 		}
@@ -159,6 +162,9 @@ func (g *Gen) test(n *Node) TestSpec {
 		t.Builtin = Pick(r, []string{"gt", "gte", "lt", "lte", "eq", "oneof"})
 		t.N = int64(r.Intn(14) - 2)
 		t.Ints = []int64{int64(r.Intn(12)), int64(r.Intn(12)), 42}
+		if t.Builtin == "oneof" && r.P(35) {
+			t.Ints = []int64{11, 0, 1, 2, 3, 4, 5, 6, 7, 8, 9, 10}
+		}
 	case KFloat32, KFloat64:
 		t.Builtin = Pick(r, []string{"gt", "gte", "lt", "lte", "eq", "oneof"})
 		t.F = Pick(r, []float64{0, 1, 2.5, 3.25, 10, -1})
